@@ -805,4 +805,4 @@ pub fn replay(ctx: &Ctx, sub: &str, case: &serde_json::Value) -> i32 {
     ctx.replay_case::<Case, _>(sub, case, test)
 }
 
-pub const RULE: &str = "scheme-level part: cases = (backend, one of 30 scratch-taking operations of poulpy-core and of the CMux family, generated gadget shapes / ranks / radices / sizes as in C03-C05). Each call is made with a scratch window of exactly the number of bytes its *_tmp_bytes query returns, 64-byte aligned inside guard regions, three times: two different garbage fills of the window and of the destination, and once with ample slack (16x the query + 8 MiB). Violation = panic, damaged guard region, or any difference between the three results. non-trivial = every executed case.";
+pub const RULE: &str = "scheme-level part: cases = (backend, one of 38 scratch-taking operations of poulpy-core and of the CMux family, generated gadget shapes / ranks / radices / sizes as in C03-C05). Each call is made with a scratch window of exactly the number of bytes its *_tmp_bytes query returns, 64-byte aligned inside guard regions, three times: two different garbage fills of the window and of the destination, and once with ample slack (16x the query + 8 MiB). Violation = panic, damaged guard region, or any difference between the three results. non-trivial = every executed case.";
